@@ -49,6 +49,21 @@ func plans(id, tier string) (*Plan, bool) {
 	if p.Assume == nil {
 		p.Assume = commonAssume
 	}
+	// The stage budgets are upper bounds (a stage that exhausts its space ends earlier).  Keep the sum
+	// for one check within 25 minutes (thorough) / 4 minutes (quick) by scaling all of them down.
+	limit := 240.0
+	if tier == "thorough" {
+		limit = 1500.0
+	}
+	total := 0.0
+	for _, st := range p.Stages {
+		total += st.BudgetS
+	}
+	if total > limit {
+		for i := range p.Stages {
+			p.Stages[i].BudgetS *= limit / total
+		}
+	}
 	return p, true
 }
 
